@@ -1985,6 +1985,7 @@ def _eval_write_to_granules(ctx, c, fn, where, params):
             note("write_to_granules:continuity", "ends in %s" % end, "%s: write_to_granules ends in %s" % (tag, end))
             continue
         pos = 0
+        stream_ = 0
         order = []
         for w in writes:
             if not isinstance(w[1], int):
@@ -1992,6 +1993,18 @@ def _eval_write_to_granules(ctx, c, fn, where, params):
                 continue
             g_, off = divmod(w[1], 100000)
             order.append(g_)
+            # the file is ONE byte stream over its chain (that is how a reader takes it: whole granules, then the sectors of the last): every piece starts where the
+            # previous one ended, counted along the chain - a piece moved to the next granule while the current one is not full leaves a hole in the stream
+            size_ = (w[2].length if hasattr(w[2], "length") else 0) if w[0] == "data" else (w[2] or 0)
+            if g_ in (10, 30, 2, 67) and size_ and off <= D.GRANULE_LEN:
+                chain_pos = [10, 30, 2, 67].index(g_) * D.GRANULE_LEN + off
+                if chain_pos != stream_:
+                    note("write_to_granules:stream", "the %s is written %d bytes %s where the stream has got to" % (
+                        {"pre": "header", "data": "data", "post": "trailer"}[w[0]], abs(chain_pos - stream_), "after" if chain_pos > stream_ else "before"),
+                         "%s: the %s goes to granule %d offset %d, i.e. byte %d of the chain, while %d bytes have been written: a reader takes the chain as one stream and finds %s"
+                         % (tag, {"pre": "header", "data": "data", "post": "trailer"}[w[0]], g_, off, chain_pos, stream_,
+                            "the unwritten rest of the granule in between" if chain_pos > stream_ else "the piece over earlier bytes"))
+            stream_ += size_
             if w[0] == "pre":
                 if (g_, off) != (10, 0):
                     note("write_to_granules:preamble", "the header is written at granule %d offset %d" % (g_, off), "%s: the header goes to granule %d offset %d, not the start of the first granule" % (tag, g_, off))
@@ -2030,7 +2043,8 @@ def _eval_write_to_granules(ctx, c, fn, where, params):
                 seqg.append(g_)
         if seqg != [10, 30, 2, 67][:len(seqg)]:
             note("write_to_granules:granule", "granules used in order %s" % seqg, "%s: the chunks go to granules %s; the allocation list is [10, 30, 2, 67]" % (tag, seqg))
-    for site in ("write_to_granules:capacity", "write_to_granules:preamble", "write_to_granules:granule", "write_to_granules:continuity", "write_to_granules:recursion"):
+    for site in ("write_to_granules:capacity", "write_to_granules:preamble", "write_to_granules:granule", "write_to_granules:continuity", "write_to_granules:recursion",
+                 "write_to_granules:stream"):
         if site in problems:
             c.finding(site, problems[site][0][:110], "write_to_granules evaluated over data lengths around the granule boundaries: %s" % problems[site][1], where)
         else:
